@@ -250,3 +250,31 @@ func unparen(e ast.Expr) ast.Expr {
 		e = p.X
 	}
 }
+
+// regionFrom returns the nodes executed after node `from` (exclusive) on some path that has
+// not yet passed a node accepted by `until` (the accepting node is not included).
+func (fg *FlowGraph) regionFrom(from ast.Node, until func(ast.Node) bool) []ast.Node {
+	b0, i0 := fg.locate(from)
+	if b0 == nil {
+		return nil
+	}
+	var out []ast.Node
+	seen := map[*cfg.Block]bool{}
+	var walk func(b *cfg.Block, i int)
+	walk = func(b *cfg.Block, i int) {
+		for ; i < len(b.Nodes); i++ {
+			if until(b.Nodes[i]) {
+				return
+			}
+			out = append(out, b.Nodes[i])
+		}
+		for _, s := range b.Succs {
+			if !seen[s] {
+				seen[s] = true
+				walk(s, 0)
+			}
+		}
+	}
+	walk(b0, i0+1)
+	return out
+}
